@@ -511,33 +511,72 @@ def rotdpp_roles(prog: Program):
 
 
 def taper_rule(ck, prog: Program, rule: str):
-    """TimeSeries.window multiplies the samples by tukey(n_samples, alpha=width), computed from its own
-    arguments on every call, and touches nothing but the object itself."""
-    from ..resolve import Resolver
-    from ..expr import equal
+    """TimeSeries.window as a table over the taper name: "tukey" -> the samples are multiplied in place by
+    tukey(n_samples, alpha=width) computed from this call's arguments; any other name raises; nothing but the object is written."""
+    from ..pathtable import PathTable, outcomes
+    from ..astutil import bind_call
     from .common import engine, describe_effect
     m = prog.func("timeseries.TimeSeries.window")
     q = m.qualname
-    R = Resolver(prog, m)
-    aug = [st for st in own_nodes(m.node) if isinstance(st, ast.AugAssign) and unparse(st.target) == "self.amplitude" and isinstance(st.op, ast.Mult)]
-    mul = [st for st in own_nodes(m.node) if isinstance(st, ast.Assign) and unparse(st.targets[0]) == "self.amplitude"]
-    want = R.expect("tukey(self.n_samples, alpha=width)")
+    if m.params[:3] != ["self", "type", "width"]:
+        raise AnalysisError(f"{q}: parameters are {m.params}")
+    F = sp.Function
+
+    def hook(call, T):
+        if isinstance(call.func, ast.Name) and call.func.id == "tukey":
+            b = bind_call(call, ["M", "alpha", "sym"])
+            return F("tukey")(*[T.tr(b[p_]) if p_ in b else sp.Symbol("<default>") for p_ in ("M", "alpha")])
+        return None
+    leaves = PathTable(prog, m.module, call_hook=hook, unroll=True).leaves(m.node.body)
+    R_ = lambda n: sp.Symbol(n, real=True)   # noqa: E731
+    TYPE, AMP = R_("type"), R_("self.amplitude")
+    want = F("tukey")(R_("self.n_samples"), R_("width"))
+
+    def canon(v):
+        # call(<function value tukey>, n, kw_alpha(w)) -> tukey(n, w)
+        def fix(x):
+            if getattr(getattr(x, "func", None), "__name__", "") == "call" and x.args and x.args[0] == R_("tukey"):
+                pos = [a_ for a_ in x.args[1:] if not getattr(getattr(a_, "func", None), "__name__", "").startswith("kw_")]
+                kw = {a_.func.__name__[3:]: a_.args[0] for a_ in x.args[1:] if getattr(getattr(a_, "func", None), "__name__", "").startswith("kw_")}
+                vals = dict(zip(("M", "alpha", "sym"), pos))
+                vals.update(kw)
+                return F("tukey")(vals.get("M", sp.Symbol("<default>")), vals.get("alpha", sp.Symbol("<default>")))
+            if getattr(getattr(x, "func", None), "__name__", "") == "call" and x.args and getattr(x.args[0], "is_Symbol", False) \
+                    and not any(getattr(getattr(a_, "func", None), "__name__", "").startswith("kw_") for a_ in x.args[1:]):
+                from ..pathtable import apply_function_value
+                v2 = apply_function_value(prog, m.module, x.args[0].name, list(x.args[1:]), call_hook=hook)
+                if v2 is not None:
+                    return v2
+            return x
+        return v.replace(lambda x: getattr(getattr(x, "func", None), "__name__", "") == "call", fix) if hasattr(v, "replace") else v
     got = None
-    if len(aug) == 1 and not mul:
-        got = R.value(aug[0].value, aug[0])
-    elif len(mul) == 1 and not aug:
-        v = R.value(mul[0].value, mul[0])
-        amp = R.expect("self.amplitude")
-        if v.is_Mul and amp in v.args:
-            got = v / amp
-    if got is not None and equal(got, want) and not R.multi:
+    good = True
+    rows = outcomes(leaves, {TYPE: sp.Symbol("'tukey'")})
+    if not rows or any(r["exit"] == "raise" for r in rows):
+        good = False
+    for r in rows:
+        stores = [e for e in r["events"] if e[0] == "store" and e[1] == "self.amplitude"]
+        if len(stores) != 1:
+            good = False
+            continue
+        v = canon(stores[0][2])
+        if getattr(getattr(v, "func", None), "__name__", "") == "aug_Mult":
+            got = v.args[0]
+        elif v.is_Mul and AMP in v.args:
+            got = v / AMP
+        else:
+            got = v
+            good = False
+        if got != want:
+            good = False
+    if good:
         ck.ok(rule, q, "self.amplitude *= tukey(self.n_samples, alpha=width)", detail="taper computed from this call's arguments")
     else:
         ck.violation(rule, q, "taper",
-                     f"the samples are multiplied by {got} (names with several definitions: {sorted(R.multi)}); expected tukey(self.n_samples, alpha=width) "
+                     f"the samples are multiplied by {got}; expected tukey(self.n_samples, alpha=width) "
                      f"computed from this call's own type and width", loc=m.loc())
-    guard = [st for st in m.node.body if isinstance(st, ast.If) and "tukey" in unparse(st.test)]
-    if guard and any(isinstance(b, ast.Raise) for b in guard[0].orelse):
+    other = outcomes(leaves, {TYPE: sp.Symbol("'<other>'")})
+    if other and all(r["exit"] == "raise" for r in other):
         ck.ok(rule, q, "unknown taper types raise", nontrivial=False)
     else:
         ck.violation(rule, q, "unknown taper type", "an unknown taper type does not raise", loc=m.loc())
